@@ -30,6 +30,8 @@ pub struct CommandWriter<T: Send + Copy>(Input<Option<T>>);
 impl<T: Send + Copy> CommandWriter<T> {
 	/** Writes a new value, overwriting any previous values. */
 	pub fn write(&mut self, command: T) {
+		#[cfg(kira_verif)]
+		crate::verif::point("cmd.w");
 		self.0.write(Some(command))
 	}
 }
@@ -45,6 +47,8 @@ impl<T: Send + Copy> CommandReader<T> {
 	 */
 	#[must_use]
 	pub fn read(&mut self) -> Option<T> {
+		#[cfg(kira_verif)]
+		crate::verif::point("cmd.r");
 		if self.0.update() {
 			*self.0.output_buffer_mut()
 		} else {
